@@ -20,7 +20,7 @@ REPLAYS = os.path.join(VERIF, 'replays')
 CLAIMED = None  # filled from MANIFEST
 # bounded stand-ins: which kinds of failing case (vx/bounded.py `report(kind, ..)`) speak against which property
 BOUNDED_KINDS = {
-    'C09': {'is_num_backup', 'next_backup_num', 'relative_spellings', 'symlinked_destinations', 'next_backup_num_extreme', 'non_backup', 'parse_backup'},
+    'C09': {'is_num_backup', 'next_backup_num', 'relative_spellings', 'symlinked_destinations', 'backup_kinds', 'next_backup_num_extreme', 'non_backup', 'parse_backup'},
     'C15': {'parse_reflink'},
     'C16': {'reject_reflink', 'reject_backup', 'reject_driver', 'parse_driver', 'glob_missing'},
     'C02': {'glob_expansion'},
